@@ -128,6 +128,11 @@ pub trait Property: Sync {
     fn prelude(&self, _tier: Tier) -> Result<BTreeMap<String, Value>, Failure> {
         Ok(BTreeMap::new())
     }
+    /// Minimises a failing rendered case at the source level, keeping the signature; `None` if
+    /// the property's cases cannot be re-checked from their rendering.
+    fn minimize(&self, _case: &Value, _signature: &str) -> Option<Value> {
+        None
+    }
     /// CPU seconds one case may use before it counts as non-terminating.
     fn cpu_limit_s(&self) -> u64 {
         30
@@ -475,6 +480,13 @@ pub fn worker_main(prop: &'static dyn Property, args: WorkerArgs) -> i32 {
                         let (detail, case) = match (&final_report.failure, &final_report.rendered) {
                             (Some(ff), r) => (ff.detail.clone(), r.clone().unwrap_or(Value::Null)),
                             _ => (f.detail.clone(), report.rendered.clone().unwrap_or(Value::Null)),
+                        };
+                        // Source-level minimisation of the rendered case, when the property supports it.
+                        watch.case_cpu_start_ns.store(thread_cpu_ns(clock), Ordering::SeqCst);
+                        watch.case_wall_start_ms.store(now_ms(origin), Ordering::SeqCst);
+                        let case = match catch(|| prop.minimize(&case, &sig)) {
+                            Ok(Some(smaller)) => smaller,
+                            _ => case,
                         };
                         summary.failures.push(FoundFailure {
                             index,
